@@ -8,6 +8,7 @@ fn main() {
         "C35" => checks::c35::run(ctx),
         "C36" => checks::c36::run(ctx),
         "C37" => checks::c37::run(ctx),
+        "SPELLINGS" => checks::spellings(ctx),
         "C38" => checks::c38::run(ctx),
         "C39" => checks::c39::run(ctx),
         p => mc_core::report::machinery_failure(&format!("mc-validate does not serve {p} yet")),
